@@ -60,11 +60,14 @@ pub struct Plan {
     /// is still growing reports 0 or a stale length); reading to end-of-file is unaffected
     #[serde(default)]
     pub stat_size: Option<u64>,
+    /// another process holds an advisory lock (flock) on every simulated file for the whole world
+    #[serde(default)]
+    pub locked_by_other: bool,
 }
 
 impl Plan {
     pub fn is_empty(&self) -> bool {
-        self.open.is_empty() && self.write.is_empty() && self.read.is_empty() && self.capacity.is_none() && self.sync.is_empty() && self.stat_size.is_none()
+        self.open.is_empty() && self.write.is_empty() && self.read.is_empty() && self.capacity.is_none() && self.sync.is_empty() && self.stat_size.is_none() && !self.locked_by_other
     }
     pub fn n_faults(&self) -> usize {
         self.open.len() + self.write.len() + self.read.len() + self.capacity.is_some() as usize + self.sync.len() + self.stat_size.is_some() as usize
@@ -142,6 +145,7 @@ impl World {
                 capacity: None,
                 sync: BTreeMap::new(),
                 stat_size: None,
+                locked_by_other: false,
             },
             n_open: 0,
             n_write: 0,
@@ -386,6 +390,16 @@ unsafe fn sim_open(path: &str, flags: i32) -> i32 {
     fd
 }
 
+thread_local! {
+    /// true: the current working directory of this thread's "process" is the root of the simulated
+    /// disk, so relative paths (`circuit.txt`, `./circuit.txt`) name simulated files
+    static SIM_CWD: std::cell::Cell<bool> = const { std::cell::Cell::new(false) };
+}
+
+pub fn enter_sim_cwd(on: bool) {
+    let _ = SIM_CWD.try_with(|c| c.set(on));
+}
+
 unsafe fn path_of(p: *const libc::c_char) -> Option<String> {
     if p.is_null() {
         return None;
@@ -393,9 +407,17 @@ unsafe fn path_of(p: *const libc::c_char) -> Option<String> {
     let s = CStr::from_ptr(p).to_bytes();
     if s.starts_with(SIM_PREFIX.as_bytes()) {
         Some(String::from_utf8_lossy(s).into_owned())
+    } else if !s.is_empty() && s[0] != b'/' && SIM_CWD.try_with(|c| c.get()).unwrap_or(false) {
+        let rel = s.strip_prefix(b"./").unwrap_or(s);
+        Some(format!("{SIM_PREFIX}{}", String::from_utf8_lossy(rel)))
     } else {
         None
     }
+}
+
+/// `.` and the root of the simulated disk are directories.
+fn is_sim_dir(p: &str) -> bool {
+    p == SIM_PREFIX || p.trim_end_matches('/') == SIM_PREFIX.trim_end_matches('/') || p == format!("{SIM_PREFIX}.")
 }
 
 /// Host files (anything outside the simulated disk) that the code under test asks for while the
@@ -827,6 +849,11 @@ pub unsafe extern "C" fn statx(dirfd: i32, path: *const libc::c_char, flags: i32
         }
     }
     if let Some(p) = path_of(path) {
+        if is_sim_dir(&p) {
+            fill_statx(buf, 4096, 0);
+            (*buf).stx_mode = (libc::S_IFDIR | 0o755) as u16;
+            return 0;
+        }
         return match sim_path_len(&p) {
             Some(len) => {
                 fill_statx(buf, len, sim_mtime_of_path(&p));
@@ -890,6 +917,11 @@ pub unsafe extern "C" fn fstat64(fd: i32, buf: *mut libc::stat) -> i32 {
 
 unsafe fn stat_path(path: *const libc::c_char, buf: *mut libc::stat, nofollow: bool) -> i32 {
     if let Some(p) = path_of(path) {
+        if is_sim_dir(&p) {
+            fill_stat(buf, 4096, 0);
+            (*buf).st_mode = libc::S_IFDIR | 0o755;
+            return 0;
+        }
         return match sim_path_len(&p) {
             Some(len) => {
                 fill_stat(buf, len, sim_mtime_of_path(&p));
@@ -1010,6 +1042,32 @@ pub unsafe extern "C" fn fdatasync(fd: i32) -> i32 {
         return sim_sync(fd);
     }
     libc::syscall(libc::SYS_fdatasync, fd) as i32
+}
+
+/// Advisory locks (`File::lock`, `lock_shared`, `try_lock`): a simulated file can be locked by
+/// ANOTHER process for the whole world (`Plan::locked_by_other`). A blocking lock request would
+/// then never return; the simulator cannot block forever, so it fails the call with EINTR and
+/// records `flock_would_block_forever` (a finding: the operation hangs in that situation).
+#[no_mangle]
+pub unsafe extern "C" fn flock(fd: i32, op: i32) -> i32 {
+    if !is_sim_fd(fd) {
+        return libc::syscall(libc::SYS_flock, fd, op) as i32;
+    }
+    let mut w = world();
+    if w.plan.locked_by_other && (op & libc::LOCK_UN) == 0 {
+        if op & libc::LOCK_NB != 0 {
+            w.fire("flock_would_block");
+            drop(w);
+            set_errno(libc::EWOULDBLOCK);
+        } else {
+            w.fire("flock_would_block_forever");
+            drop(w);
+            set_errno(libc::EINTR);
+        }
+        return -1;
+    }
+    w.fire("flock_granted");
+    0
 }
 
 unsafe fn sim_truncate(fd: i32, len: i64) -> i32 {
